@@ -3442,7 +3442,9 @@ class ContractionTree:
 
             for j in range(1, stepsize):
                 i = o * stepsize + j
-                chunk = chunk + self.contract_slice(arrays, i, **contract_opts)
+                chunk = add_maybe_exponent_stripped(
+                    chunk, self.contract_slice(arrays, i, **contract_opts)
+                )
 
             if with_key:
                 yield chunk, output_key
